@@ -226,10 +226,16 @@ def run_case(case):
             if sd_ops:
                 if not defs.same_split_everywhere(view, va, vb):
                     raise Violation("product-structure", "multiply:result-splits-differ-from-operands", "")
+                full_outputs = all(va[o][2] == scope_a for o in a["outputs"]) and all(
+                    vb[o][2] == scope_b for o in b["outputs"])
                 if sa.is_structured_decomposable and sb.is_structured_decomposable:
                     if not res.is_structured_decomposable:
                         raise Violation("product-structure", "multiply:result-not-structured-decomposable", "")
-                    if not (are_compatible(res, sa) and are_compatible(res, sb) and are_compatible(sa, res)):
+                    # the library's (conservative) predicate is only demanded when every output of the operands
+                    # covers the whole scope: products of outputs over disjoint scopes introduce a product over a
+                    # scope the operands never factorise, which the predicate answers "not compatible" to
+                    if full_outputs and not (are_compatible(res, sa) and are_compatible(res, sb)
+                                             and are_compatible(sa, res)):
                         raise Violation("product-structure", "multiply:result-not-compatible-with-operands", "")
     if err is not None:
         classes.append("raised:" + type(err).__name__)
